@@ -9,10 +9,12 @@ package vharness
 //                     between; after the last Stop no library goroutine is left.
 
 import (
+	"context"
 	"fmt"
 	"sort"
 	"strings"
 	"sync"
+	"sync/atomic"
 	"testing/synctest"
 	"time"
 
@@ -513,4 +515,306 @@ func orRace(o ExploreOpts) ExploreOpts {
 		return *raceOpts
 	}
 	return o
+}
+
+// ---------------------------------------------------------------- context cancelled with jobs in flight
+
+type ctxInflightCfg struct {
+	WK   WK
+	QK   QK
+	Conc int
+	N    int
+}
+
+func (c ctxInflightCfg) String() string {
+	return fmt.Sprintf("ctx-inflight wk=%v qk=%v conc=%d n=%d", c.WK, c.QK, c.Conc, c.N)
+}
+
+// epCtxInflight: the configured context is cancelled while worker functions are executing and stay in
+// their function. Until they return their jobs read Processing, their handles' waiters stay parked,
+// NumProcessing counts them; afterwards the worker is Stopped and nothing of it is left.
+func epCtxInflight(c *RunCtx, cfg ctxInflightCfg) *Result {
+	e := NewEnv(c.Prop)
+	k := NewKit(e, cfg.N)
+	ended := false
+	out := RunBubble(c.T, func(bid string) {
+		ctx, cancel := context.WithCancel(context.Background())
+		defer cancel()
+		s := NewSubject(cfg.WK, k.Work, cfg.Conc, varmq.WithContext(ctx))
+		q := s.Bind(cfg.QK, nil)
+		gate := make(chan struct{})
+		for i := 0; i < cfg.N; i++ {
+			k.Recs[i].Gate = gate
+			k.Add(q, i)
+		}
+		synctest.Wait()
+		var inside []int
+		for _, r := range k.Recs {
+			if r.Enter.Load() != 0 && r.Exit.Load() == 0 {
+				inside = append(inside, r.Idx)
+			}
+		}
+		waitRet := make([]atomic.Int64, cfg.N)
+		var wwg sync.WaitGroup
+		for _, i := range inside {
+			if h := k.Recs[i].H; h != nil {
+				wwg.Add(1)
+				go func() {
+					defer wwg.Done()
+					h.Wait()
+					waitRet[i].Store(e.Ev(fmt.Sprintf("wait%d.ret", i)))
+				}()
+			}
+		}
+		synctest.Wait()
+		e.Ev("ctx.cancel")
+		cancel()
+		synctest.Wait()
+		time.Sleep(time.Microsecond)
+		synctest.Wait()
+		for _, i := range inside {
+			r := k.Recs[i]
+			if r.Exit.Load() != 0 {
+				continue
+			}
+			if st := statusOf(r); r.H != nil && st != "Processing" {
+				e.Fail("C16", "not-processing-during-run", "ctx-cancel/"+st, fmt.Sprintf("%s: job %d reads %s while its function is still executing (the worker's context was cancelled meanwhile)", cfg, i, st))
+			}
+			if st := r.RefStatus(); st != "" && st != "Processing" {
+				e.Fail("C16", "not-processing-during-run", "ctx-cancel/ref/"+st, fmt.Sprintf("%s: job %d reads %s through the job value while its function is still executing", cfg, i, st))
+			}
+			if waitRet[i].Load() != 0 {
+				e.Fail("C05", "returned-before-exit", "ctx-cancel", fmt.Sprintf("%s: Wait on job %d returned while its function is still executing (context cancelled)", cfg, i))
+			}
+		}
+		if got := s.W.NumProcessing(); got != len(inside) {
+			e.Fail("C17", "processing-at-q", "ctx-cancel", fmt.Sprintf("%s: NumProcessing=%d with %d functions executing after the context was cancelled", cfg, got, len(inside)))
+		}
+		if st := s.W.Status(); st == "Stopped" && len(inside) > 0 {
+			e.Fail("C06", "executing-at-return", "ctx-stop", fmt.Sprintf("%s: the worker reports Stopped while %d functions are still executing", cfg, len(inside)))
+			e.Fail("C14", "stopped-with-jobs-in-flight", "ctx", fmt.Sprintf("%s: the worker reports Stopped while %d functions are still executing", cfg, len(inside)))
+		}
+		close(gate)
+		if !k.Await(wwg.Wait) {
+			hangFail(e, "C05", "handle-waiter/ctx-cancel", bid)
+			return
+		}
+		synctest.Wait()
+		for _, i := range inside {
+			r := k.Recs[i]
+			if r.H != nil {
+				if st := statusOf(r); st != "Closed" {
+					e.Fail("C16", "not-closed-at-rest", "ctx-cancel", fmt.Sprintf("%s: job %d reads %s at rest", cfg, i, st))
+				}
+			}
+			if r.Runs.Load() != 1 {
+				e.Fail("C01", "not-exactly-once", "ctx-cancel", fmt.Sprintf("%s: job %d ran %d times", cfg, i, r.Runs.Load()))
+			}
+		}
+		if st := s.W.Status(); st != "Stopped" {
+			e.Fail("C14", "cancelled-context-not-stopped", st, fmt.Sprintf("%s: the context was cancelled and everything is at rest, the worker reports %s", cfg, st))
+		}
+		if p := s.W.NumProcessing(); p != 0 {
+			e.Fail("C17", "processing-at-rest", "ctx-cancel", fmt.Sprintf("%s: NumProcessing=%d at rest", cfg, p))
+		}
+		if by, total, det := Census(bid); total != 0 {
+			e.Fail("C18", "goroutines-after-stop", creators(by), fmt.Sprintf("%s: %d library goroutines remain after the context stopped the worker: %v\n%s", cfg, total, by, strings.Join(det, "\n")))
+		}
+		if len(inside) > 0 {
+			e.Nontrivial()
+		}
+		ended = true
+	})
+	switch out.Kind {
+	case "hang":
+		e.Fail("C03", "hang", "ctx-inflight/"+blockedLibFrames(out.Stacks), cfg.String()+": "+out.Msg+"\n"+out.Stacks)
+	case "leak":
+		if ended {
+			e.Fail("C18", "leak-after-stop", blockedLibFrames(out.Stacks), cfg.String()+": "+out.Msg)
+		}
+	case "panic":
+		e.Fail(c.Prop, "harness-panic", "", cfg.String()+": "+out.Msg+"\n"+out.Stacks)
+	}
+	return e.Result(k.Sample(cfg.String()))
+}
+
+func ctxInflightPrograms(c *RunCtx, nq, nt int) {
+	for v := 0; v < c.Q(nq, nt); v++ {
+		c.Program(fmt.Sprintf("ctx-inflight/%d", v), func(p *Prog) {
+			r := p.Rng
+			cfg := ctxInflightCfg{WK: Pick(r, WPlain, WErr, WResult), QK: Pick(r, QFifo, QPrio), Conc: Pick(r, 1, 2, 3), N: 1 + r.Intn(5)}
+			p.Explore(func(pl Plan) *Result { return epCtxInflight(c, cfg) },
+				orRace(ExploreOpts{Base: 3, Noise: c.Q(10, 50), K: 2, Funcs: []string{"goListenToContext", "stop", "Stop", "initPoolNode", "freePoolNode", "job.Close", "markClosed", "WaitUntilFinished"}, Pairs: c.Q(10, 60), MaxCases: c.Q(100, 1500)}))
+		})
+	}
+}
+
+// ---------------------------------------------------------------- pool modes (C18)
+
+type poolModeCfg struct {
+	WK     WK
+	Conc   int
+	Ratio  int
+	Expiry bool
+	Mode   string // trim-paused, trim-tuned, pause-drain, stop-drain
+}
+
+func (c poolModeCfg) String() string {
+	return fmt.Sprintf("pool-mode %s wk=%v conc=%d ratio=%d expiry=%v", c.Mode, c.WK, c.Conc, c.Ratio, c.Expiry)
+}
+
+// epPoolMode: directed pool situations.
+//
+//	trim-paused: the whole pool turns idle while the worker is paused with a backlog; after four expiry
+//	             periods only the configured minimum is left;
+//	trim-tuned:  the limit is lowered to 1 under a lasting backlog; the surplus idle workers are retired
+//	             although the queue never runs empty;
+//	pause-drain / stop-drain: every pool goroutine is busy when the worker is paused (stopped), the jobs
+//	             finish meanwhile; after Resume (Restart) the running worker has an idle worker again.
+func epPoolMode(c *RunCtx, cfg poolModeCfg) *Result {
+	e := NewEnv(c.Prop)
+	const period = time.Millisecond
+	backlog := 3 * cfg.Conc
+	k := NewKit(e, cfg.Conc+backlog+1)
+	ended := false
+	out := RunBubble(c.T, func(bid string) {
+		wcfg := []any{cfg.Conc, varmqRatio(uint8(cfg.Ratio))}
+		if cfg.Expiry {
+			wcfg = append(wcfg, varmqExpiry(period))
+		}
+		s := NewSubject(cfg.WK, k.Work, wcfg...)
+		q := s.Bind(QFifo, nil)
+		g1 := make(chan struct{})
+		for i := 0; i < cfg.Conc; i++ {
+			k.Recs[i].Gate = g1
+			k.Add(q, i)
+		}
+		synctest.Wait()
+		if n := k.InFlight(); n != cfg.Conc {
+			e.Fail("C03", "no-progress-at-quiescence", "pool-mode", fmt.Sprintf("%s: %d of %d jobs executing", cfg, n, cfg.Conc))
+			close(g1)
+			return
+		}
+		next := cfg.Conc
+		census := func(where string) {
+			by, _, det := Census(bid)
+			nodes, idle := by[".(*worker).initPoolNode"], s.W.NumIdleWorkers()
+			if nodes != idle+k.InFlight() {
+				e.Fail("C18", "pool-census-mismatch", "pool-mode", fmt.Sprintf("%s: %s: %d pool goroutines, idle %d + executing %d\n%s", cfg, where, nodes, idle, k.InFlight(), strings.Join(det, "\n")))
+			}
+		}
+		switch cfg.Mode {
+		case "trim-paused":
+			s.W.Pause()
+			for i := 0; i < cfg.Conc+2; i++ {
+				k.Add(q, next)
+				next++
+			}
+			close(g1)
+			synctest.Wait()
+			time.Sleep(4*period + period/2)
+			synctest.Wait()
+			target := max(cfg.Conc*cfg.Ratio/100, 1)
+			if idle := s.W.NumIdleWorkers(); idle < 1 || idle > target {
+				e.Fail("C18", "idle-not-trimmed", "paused-backlog", fmt.Sprintf("%s: the pool of %d turned idle while the worker is paused with %d jobs pending; after 4 expiry periods NumIdleWorkers=%d, want 1..%d", cfg, cfg.Conc, cfg.Conc+2, idle, target))
+			}
+			census("after trimming while paused")
+			s.W.Resume()
+		case "trim-tuned":
+			for i := 0; i < backlog; i++ {
+				k.Recs[next].Work = period / 2
+				k.Add(q, next)
+				next++
+			}
+			k.Control(s.W, "TunePool", 1)
+			close(g1)
+			synctest.Wait()
+			time.Sleep(5 * period)
+			synctest.Wait()
+			if p := s.W.NumPending(); p > 0 {
+				// the backlog still lasts: one job executes, the surplus workers have been idle for periods
+				if idle := s.W.NumIdleWorkers(); idle > 2 {
+					e.Fail("C18", "idle-not-trimmed", "tuned-backlog", fmt.Sprintf("%s: limit lowered from %d to 1 with a backlog of %d; 5 expiry periods later %d jobs are still pending and NumIdleWorkers=%d, want at most the minimum (1) plus the one between two jobs", cfg, cfg.Conc, backlog, p, idle))
+				}
+				e.Stat("trim_under_backlog_checks", 1)
+			}
+		case "pause-drain", "stop-drain":
+			if cfg.Mode == "pause-drain" {
+				s.W.Pause()
+			} else {
+				go s.W.Stop() // waits for the jobs in flight
+				synctest.Wait()
+			}
+			close(g1)
+			synctest.Wait()
+			if cfg.Mode == "pause-drain" {
+				s.W.Resume()
+			} else {
+				s.W.Restart()
+			}
+			synctest.Wait()
+			if st := s.W.Status(); st != "Running" {
+				e.Fail("C14", "not-running-at-end", "pool-mode", fmt.Sprintf("%s: worker reports %s", cfg, st))
+			}
+			if idle := s.W.NumIdleWorkers(); idle < 1 {
+				e.Fail("C18", "no-idle-worker", "pool-mode/"+cfg.Mode, fmt.Sprintf("%s: every pool goroutine was busy when the worker left the running state and finished meanwhile; back in Running, at rest, NumIdleWorkers=%d", cfg, idle))
+			}
+			census("after coming back")
+		}
+		// a probe and the rest run to completion
+		k.Add(q, next)
+		next++
+		synctest.Wait()
+		time.Sleep(time.Duration(backlog+2) * period)
+		synctest.Wait()
+		for _, r := range k.Recs[:next] {
+			if r.OK && r.Runs.Load() != 1 {
+				det := fmt.Sprintf("%s: job %d ran %d times (pending=%d processing=%d status=%s)", cfg, r.Idx, r.Runs.Load(), s.W.NumPending(), s.W.NumProcessing(), s.W.Status())
+				e.Fail("C01", "not-exactly-once", "pool-mode", det)
+				e.Fail("C03", "not-run-at-quiescence", "pool-mode", det)
+				e.Fail("C18", "lost-job-under-tunepool", "pool-mode", det)
+			}
+		}
+		if idle := s.W.NumIdleWorkers(); idle < 1 {
+			e.Fail("C18", "no-idle-worker", "pool-mode/end", fmt.Sprintf("%s: running worker at rest has %d idle workers", cfg, idle))
+		}
+		census("end")
+		e.Nontrivial()
+		if !k.Await(func() { s.W.Stop() }) {
+			hangFail(e, "C06", "Stop(final)", bid)
+			return
+		}
+		synctest.Wait()
+		if by, total, det := Census(bid); total != 0 {
+			e.Fail("C18", "goroutines-after-stop", creators(by), fmt.Sprintf("%s: %d library goroutines remain after Stop: %v\n%s", cfg, total, by, strings.Join(det, "\n")))
+		}
+		ended = true
+	})
+	switch out.Kind {
+	case "hang":
+		e.Fail("C03", "hang", "pool-mode/"+blockedLibFrames(out.Stacks), cfg.String()+": "+out.Msg+"\n"+out.Stacks)
+	case "leak":
+		if ended {
+			e.Fail("C18", "leak-after-stop", blockedLibFrames(out.Stacks), cfg.String()+": "+out.Msg)
+		}
+	case "panic":
+		e.Fail(c.Prop, "harness-panic", "", cfg.String()+": "+out.Msg+"\n"+out.Stacks)
+	}
+	return e.Result(k.Sample(cfg.String()))
+}
+
+func poolModePrograms(c *RunCtx, nq, nt int) {
+	modes := []string{"trim-paused", "trim-tuned", "pause-drain", "stop-drain"}
+	for v := 0; v < c.Q(nq, nt); v++ {
+		c.Program(fmt.Sprintf("pool-mode/%d", v), func(p *Prog) {
+			r := p.Rng
+			cfg := poolModeCfg{WK: Pick(r, WPlain, WErr, WResult), Conc: Pick(r, 1, 2, 3, 4, 8), Ratio: Pick(r, 1, 25, 50, 100), Mode: modes[v%len(modes)]}
+			cfg.Expiry = cfg.Mode == "trim-paused" || cfg.Mode == "trim-tuned" || r.Chance(30)
+			if cfg.Mode == "trim-tuned" {
+				cfg.Conc = Pick(r, 3, 4, 8)
+			}
+			p.Explore(func(pl Plan) *Result { return epPoolMode(c, cfg) },
+				orRace(ExploreOpts{Base: 2, K: 2, Funcs: []string{"freePoolNode", "goRemoveIdleWorkers", "TunePool", "Pause", "Resume", "stop", "Restart", "initPoolNode", "numMinIdleWorkers"}, Pairs: c.Q(6, 40), MaxCases: c.Q(40, 600)}))
+		})
+	}
 }
